@@ -24,6 +24,7 @@ RULES_DOC = dict(common.SHARED_DOC)
 RULES_DOC["R8"] = "= C01.R5: a unit cancelled in a yield-family callback is not pushed back to its pool (a joiner is released once and the terminated unit never runs again)"
 RULES_DOC["R9"] = "= C18.R6: a failed step leaves the descriptor it was given unchanged (a revive that fails does not leave a TERMINATED unit marked READY, on which a join or free would never return)"
 RULES_DOC["X4"] = common.X4_DOC
+RULES_DOC["R11"] = "= C12.R3: a unit that suspends itself is not terminated inside its suspend callback: the termination half of the join handshake would wake the joiner while the target goes on to BLOCKED and terminates again later"
 RULES_DOC["R10"] = "= C06.R1-R4: a joiner that blocks is counted on the pool it will be resumed on, and is pushed before it stops being counted (a join whose caller is stranded in a dead pool never returns although the target terminated)"
 RULES_DOC.update({
     "R1": "every return of thread_join (and of its waiting helpers) follows an acquire-load observation state == TERMINATED",
@@ -608,3 +609,5 @@ def run(P, rep, tier):
     from . import C06
     common.borrow(rep, P, C06.rule_R1_R3_R4, "R10")
     common.borrow(rep, P, C06.rule_R2, "R10")
+    from . import C12
+    common.borrow(rep, P, C12.rule_R3, "R11")
